@@ -160,5 +160,6 @@ funclit 2 in New(h host.Host, options ...Option) (*DHT, error)
 func combineErrors(erra, errb error) error
   props C15
   modifies nothing
+  ensures [two-errors-never-vanish] imp(erra != nil && errb != nil, result != nil)
   ensures [same-or-lookup-failure-collapses] imp(erra == errb, result == erra) && imp(erra != errb && erra == kb.ErrLookupFailure, result == errb) && imp(erra != errb && erra != kb.ErrLookupFailure && errb == kb.ErrLookupFailure, result == erra)
 @*/
